@@ -145,8 +145,10 @@ func CompareValues(left r.Element, right r.Element, verb uint8) (bool, error) {
 			if len(vl.value) != len(vr.value) {
 				return false, nil
 			}
-			// cmp each item
-			for idx := range vl.value {
+			// cmp each item - in the key order of the left dictionary, so that the
+			// outcome (false or an error of an entry that cannot be compared) does
+			// not depend on Go's map iteration order
+			for _, idx := range vl.keyOrder {
 				// ensure the key exists on vr
 				vrr, ok := vr.value[idx]
 				if !ok {
